@@ -574,6 +574,12 @@ def reduce_any(st, a):
         for idx in itertools.product(*[range(d) for d in shape]):
             r = bor(r, fn(idx))
         return r
+    if len(shape) == 1:
+        j = fresh_int('j')
+        body = fn((Sc(j),))
+        if isinstance(body, bool):
+            return band(body, compare('>', shape[0], 0))
+        return wrap(sym.EXTREMA.atom(to_z3(shape[0], 'int'), j, to_z3(body, 'bool'), 'any'))
     b = fresh_bool('any')
     ks = [fresh_int('w') for _ in shape]
     inr = True
@@ -701,7 +707,8 @@ def unit_factor(src, dst):
         raise Raised('UnitConversionError', '%s -> %s' % (src.name, dst.name))
     if src.name == dst.name:
         return 1
-    return arith('/', src.scale, dst.scale)
+    from .units import _sdiv
+    return _sdiv(src.scale, dst.scale)
 
 
 def scale_value(st, v, f):
